@@ -37,11 +37,35 @@ def sites(repo):
                     out.append((rel, encl[-1] if encl else "?", t.line))
     return out
 
+def field_reads(repo):
+    """(enclosing fn, line) of every `self.0` in auth/secret_key.rs outside test modules"""
+    p = os.path.join(repo, "crates/s3s/src/auth/secret_key.rs")
+    toks, _ = tokenize(open(p).read())
+    spans = []
+    for i, t in enumerate(toks):
+        if t.text == "fn" and i + 1 < len(toks) and toks[i+1].kind == "ident":
+            j = i + 2
+            while j < len(toks) and toks[j].text not in ("{", ";"): j += 1
+            if j < len(toks) and toks[j].text == "{": spans.append((j, match_close(toks, j), toks[i+1].text))
+    out = []
+    for i, t in enumerate(toks):
+        if t.text == "self" and i + 2 < len(toks) and toks[i+1].text == "." and toks[i+2].text == "0":
+            encl = [n for (a, b, n) in spans if a < i < b]
+            out.append((encl[-1] if encl else "?", t.line))
+    return out
+
 def gen(name, ctx):
     if name == "expose_sites":
         S = sites(ctx["repo"])
         ctx["info"]["expose_call_sites"] = [f"{r}:{l} in fn {n}" for r, n, l in S]
         bad = [(r, n, l) for r, n, l in S if (r, n) not in ALLOWED and r != "auth/secret_key.rs"]
+        # inside secret_key.rs itself the clear text is read by `expose` (and wiped by `zeroize`); ANOTHER reader there is new code this
+        # unit has no contract for: undecided (the standing replay then looks at every rendering), never an alarm by itself
+        inside = [(n, l) for r, n, l in S if r == "auth/secret_key.rs"] + field_reads(ctx["repo"])
+        extra = sorted({(n, l) for n, l in inside if n not in ("expose", "zeroize")})
+        if extra:
+            from unit import UnitError
+            raise UnitError("auth/secret_key.rs reads the clear text of a secret in a function that is not under contract: " + "; ".join(f"fn {n} (line {l})" for n, l in extra))
         ens = ["        //# C16:frame.the_clear_text_of_a_secret_is_read_only_by_the_two_signature_functions"]
         if bad:
             ens.append("        false, // unexpected `.expose()` call site(s): " + "; ".join(f"{r}:{l} in fn {n}" for r, n, l in bad))
